@@ -216,12 +216,12 @@ def replay_file(chk, rp):
 KL = 100000
 
 
-def field_trace(k, gaps=0, gseed=0):
+def field_trace(k, gaps=0, gseed=0, conn=None):
+    """conn: a dataset loaded from the sample files of dataset k by someone else (the repository's tests)"""
     from . import field_checks as FF
-    import pytz
     import datetime
-    conn = FF.loaded(k, gaps, gseed)
-    tz = pytz.timezone("Africa/Lagos")
+    if conn is None:
+        conn = FF.loaded(k, gaps, gseed)
 
     def parse(text):
         rows = []
